@@ -2,6 +2,7 @@ package props
 
 import (
 	"fmt"
+	"go/types"
 	"strings"
 
 	"golang.org/x/tools/go/ssa"
@@ -25,6 +26,10 @@ func runC10(c *Ctx) {
 	c.Rule("C10.O2", "E4,E2", "flushResponse: Close only after flush (or at once on flush error), keep-alive renewal on the other edge, releaseRequest and releaseResponse exactly once on every path with a connection", 2)
 	c.Rule("C10.O3", "E1,E4", "ClientConn: handlers/closed/conn guarded by its mutex; Do appends before writing the request; onResponse invokes and pops index 0; close invokes all pending handlers and clears the list", 14)
 	c.Rule("C10.O4", "E7d", "startListeners: TLS and non-TLS switches over IOMod have cases {0,1,2}; blocking <-> AddConn*Blocking, non-blocking <-> AddConn*NonBlocking, mixed <-> A blocking with Decrease + B non-blocking; TLS loop uses the TLS variants", 8)
+	c.Rule("C10.O8", "E4", "ClientConn.onResponse removes the answered handler from the pending list before anything that can fail the remaining ones (the timeout close runs every pending handler): no teardown call is reachable without passing the pop", 1)
+	c.Rule("C10.O9", "E4", "a pooled nbhttp object goes back to its pool only after a whole-object reset (*x = <empty value>): a field-by-field reset that forgets one field (hijacked) poisons a later, unrelated exchange", 3)
+	c.Rule("C10.O10", "E5", "every release of a request passes the engine's RetainHTTPBody setting: the body of a retained request is never released by the library, whatever happened to the response", 3)
+	c10ClientAndPools(c)
 	c.Rule("C10.O7", "E4,E5", "the close the library issues itself after a complete 'Connection: close' response does not cut the response off: the Close it calls drains (reaches flush, or tears down only on the queue-empty edge) instead of releasing the write queue unsent", 1)
 	c.Rule("C10.O6", "E4,E6", "the TLS drain loops read the decrypted stream to exhaustion: an edge of a test on AppendAndRead's count that does not come back to AppendAndRead (without a new socket read) is taken only for a count of zero; one socket read can carry several TLS records, each returned by its own AppendAndRead", 2)
 	c10TLSDrain(c, "C10.O6", "nbhttp")
@@ -605,4 +610,92 @@ func (c *Ctx) closeDrains() (bool, string) {
 		}
 	}
 	return true, "every teardown call on the way sits on the queue-empty edge"
+}
+
+// c10ClientAndPools: O8, O9, O10.
+func c10ClientAndPools(c *Ctx) {
+	if fn := c.Fn("C10.O8", "(*nbhttp.ClientConn).onResponse"); fn != nil {
+		fi := c.P.Info(fn)
+		key := fnKey(c.P, fn, "pop before anything that fails the pending handlers")
+		isPop := func(in ssa.Instruction) bool {
+			st, ok := in.(*ssa.Store)
+			if !ok {
+				return false
+			}
+			fa, ok := st.Addr.(*ssa.FieldAddr)
+			if !ok || c.P.FieldKey(fa) != "nbhttp.ClientConn.handlers" {
+				return false
+			}
+			_, isSlice := ir.Resolve(st.Val).(*ssa.Slice)
+			return isSlice || ir.IsNilConst(st.Val)
+		}
+		var entry ssa.Instruction
+		if len(fn.Blocks) > 0 && len(fn.Blocks[0].Instrs) > 0 {
+			entry = fn.Blocks[0].Instrs[0]
+		}
+		bad := ""
+		if entry != nil {
+			vis, _ := fi.Reach([]ssa.Instruction{entry}, isPop)
+			for in := range vis {
+				if cs, ok := ir.AsCall(in); ok {
+					n := c.P.CalleeName(cs.Common)
+					if strings.HasSuffix(n, ").closeWithErrorWithoutLock") || strings.HasSuffix(n, ").CloseWithError") {
+						bad = "the close at " + c.Pos(in) + " can run while the handler that was just answered is still in the pending list: the timeout close invokes every pending handler, so that request's callback runs a second time, with the timeout error"
+					}
+				}
+			}
+		}
+		c.Cond(bad == "", "C10.O8", key, c.FnPos(fn), "no teardown reachable before the pop", bad)
+	}
+	// O9
+	for _, f := range c.pkgFuncs("nbhttp") {
+		fi := c.P.Info(f)
+		for _, cs := range c.P.CallsNamed(f, "(*sync.Pool).Put") {
+			if len(cs.Common.Args) < 2 {
+				continue
+			}
+			mi, ok := cs.Common.Args[1].(*ssa.MakeInterface)
+			if !ok {
+				continue
+			}
+			ptr := ir.Resolve(mi.X)
+			pt, isPtr := ptr.Type().Underlying().(*types.Pointer)
+			if !isPtr {
+				continue
+			}
+			if _, isStruct := pt.Elem().Underlying().(*types.Struct); !isStruct {
+				continue
+			}
+			key := fmt.Sprintf("%s: Put(%s) after a whole reset", c.P.FuncName(ir.Outermost(f)), types.TypeString(ptr.Type(), func(p *types.Package) string { return p.Name() }))
+			reset := false
+			for _, b := range f.Blocks {
+				for _, in := range b.Instrs {
+					st, ok := in.(*ssa.Store)
+					if !ok || ir.Resolve(st.Addr) != ptr {
+						continue
+					}
+					if fi.Dominates(st, cs.In) {
+						reset = true
+					}
+				}
+			}
+			c.Cond(reset, "C10.O9", key, c.Pos(cs.In), "*x = <empty value> dominates the Put",
+				"the object is put back at "+c.Pos(cs.In)+" without a whole-object reset (*x = empty): whatever field the reset does not mention (hijacked, chunked, ...) is inherited by the next exchange that draws the object")
+		}
+	}
+	c10RetainSetting(c, "C10.O10")
+}
+
+// c10RetainSetting: every release of a request passes Engine.RetainHTTPBody.
+func c10RetainSetting(c *Ctx, ob string) {
+	n := 0
+	for _, f := range c.pkgFuncs("nbhttp") {
+		for _, cs := range c.P.CallsNamed(f, "nbhttp.releaseRequest") {
+			n++
+			key := fmt.Sprintf("%s: releaseRequest#%d", c.P.FuncName(ir.Outermost(f)), n)
+			ok := len(cs.Common.Args) == 2 && strings.HasSuffix(c.P.LoadedField(ir.Resolve(cs.Common.Args[1])), ".RetainHTTPBody")
+			c.Cond(ok, ob, key, c.Pos(cs.In), "second argument is Engine.RetainHTTPBody",
+				"releaseRequest is called at "+c.Pos(cs.In)+" with "+c.P.Desc(ir.Resolve(cs.Common.Args[len(cs.Common.Args)-1]))+" instead of the engine's RetainHTTPBody: with the setting on, the application owns the body buffers and the library frees and recycles them under it")
+		}
+	}
 }
